@@ -50,7 +50,7 @@ RULE = ("three kinds of case from one PRNG. lin: class in {additive, additive+do
 TRUSTED = ["scipy.optimize.minimize (Nelder-Mead) and numpy.linalg.eigh inside rrBLUP_ML0 are not modelled: varE, varU are taken from the implementation",
            "numpy float64 matmul/sum on dyadic-grid inputs is exact (regime E); var/std/division are compared within 2^-30 (regime T)",
            "DenseLinearGenomicModel is abstract in /repo: it is exercised through a subclass created by the harness that only empties __abstractmethods__",
-           "classification of C04-gs-maxiter re-runs the implementation's gauss_seidel with maxiter 1000 and 1001 to decide whether the loop was cut by the limit"]
+           "classification of C04-gs-maxiter uses a reference float Gauss-Seidel loop in the harness to decide whether the specified algorithm itself needs more than 1000 sweeps"]
 ASSUMPTIONS = ["effects/covariates/phenotypes on dyadic grids (k/8, k/4), dosages in 0..ploidy stored as int8, at least one taxon, one marker, one fixed effect",
                "rrBLUP training sets have at least one polymorphic marker and no constant response (outside the property's quantifier otherwise)",
                "the ridge parameter is positive (varE, varU are exponentials of the optimiser's result)"]
@@ -827,11 +827,16 @@ def _emit_fit(case, out):
 BAD_N = [49, 98, 103, 107]      # sizes at which 1/N * N != 1 in binary64
 
 def _gs_ran_out(A, b):
-    """did the implementation's own solver stop because of the iteration limit? (the result still changes with one more sweep allowed)"""
-    from pybrops.model.gmod.rrBLUPModel0 import gauss_seidel
-    A = numpy.array([[float(v) for v in r] for r in A]); b = numpy.array([float(v) for v in b])
-    with numpy.errstate(all="ignore"):
-        return not numpy.array_equal(gauss_seidel(A, b, GS_ATOL, GS_MAXITER), gauss_seidel(A, b, GS_ATOL, GS_MAXITER + 1))
+    """would Gauss-Seidel AS SPECIFIED (reference float loop below, independent of the implementation) still be moving by more
+    than atol after maxiter sweeps?  Decides whether a non-solved system is the known iteration-limit finding."""
+    A = [[float(v) for v in r] for r in A]; b = [float(v) for v in b]; p = len(b)
+    x = [0.0] * p
+    for _ in range(GS_MAXITER):
+        prev = list(x)
+        for i in range(p):
+            x[i] = (b[i] - sum(A[i][j] * x[j] for j in range(p) if j != i)) / A[i][i]
+        if not any(abs(x[i] - prev[i]) > GS_ATOL for i in range(p)): return False
+    return True
 
 def classify(case, out, clauses):
     """narrow match of a failing case to a known finding: every deviation from the property must be explained by the as-coded
